@@ -45,12 +45,28 @@ const c06Charset = "abcdefghijklmnopqrstuvwxyzABCDEFGHIJKLMNOPQRSTUVWXYZ01234567
 
 func c06Collect(n int) ([]c06Login, error) {
 	var cnt int64
+	return c06CollectWith(n, countingStore{n: &cnt}, false)
+}
+
+// c06CollectChain: one browser that never completes a login: every request presents the cookie of the previous
+// login redirect (a real memory store holds the pending logins), so each redirect is issued "on top of" an earlier one.
+func c06CollectChain(n int) ([]c06Login, error) {
+	clock := oidc.Clock{}
+	return c06CollectWith(n, oidc.NewMemoryStore(&clock, 0, 0), true)
+}
+
+func c06CollectWith(n int, store oidc.SessionStore, chain bool) ([]c06Login, error) {
 	cfg := &configv1.Config{Chains: []*configv1.FilterChain{{Name: "c", Filters: []*configv1.Filter{{Type: &configv1.Filter_Oidc{Oidc: c08OIDC()}}}}}}
-	f := server.NewExtAuthZFilter(cfg, c08Pool, nil, countingFactory{countingStore{n: &cnt}})
+	f := server.NewExtAuthZFilter(cfg, c08Pool, nil, countingFactory{store})
 	var out []c06Login
+	cookie := ""
 	for i := 0; i < n; i++ {
+		hdrs := map[string]string{}
+		if chain && cookie != "" {
+			hdrs["cookie"] = cookie
+		}
 		req := &envoy.CheckRequest{Attributes: &envoy.AttributeContext{Request: &envoy.AttributeContext_Request{
-			Http: &envoy.AttributeContext_HttpRequest{Id: "1", Method: "GET", Scheme: "https", Host: "app.test", Path: "/x", Headers: map[string]string{}}}}}
+			Http: &envoy.AttributeContext_HttpRequest{Id: "1", Method: "GET", Scheme: "https", Host: "app.test", Path: fmt.Sprintf("/x%d", i%3), Headers: hdrs}}}}
 		t0 := time.Now().UnixNano()
 		resp, err := f.Check(context.Background(), req)
 		t1 := time.Now().UnixNano()
@@ -71,6 +87,7 @@ func c06Collect(n int) ([]c06Login, error) {
 				v := h.GetHeader().GetValue()
 				if i := strings.Index(v, "="); i > 0 {
 					l.SID = strings.SplitN(v[i+1:], ";", 2)[0]
+					cookie = v[:i] + "=" + l.SID
 				}
 			}
 		}
@@ -238,6 +255,14 @@ func c06Run(run *ev.Run) {
 		run.HarnessError("C06 collect: " + err.Error())
 		return
 	}
+	// ... and as many issued to one browser that presents the cookie of its previous, never completed login
+	chain, err := c06CollectChain(n / 2)
+	if err != nil {
+		run.HarnessError("C06 collect (chain): " + err.Error())
+		return
+	}
+	logins = append(logins, chain...)
+	run.Extra["logins_on_top_of_a_pending_login"] = len(chain)
 	var cands int64
 	report := func(i int, h *c06Hit) {
 		run.Violation(fmt.Sprintf("C06 predictable target=%s attack=%s", h.Target, h.Attack), fmt.Sprintf("login %d: %s", i, h.Detail),
